@@ -7,11 +7,40 @@ package main
 // so a counterexample that depends on one particular permutation may fail to
 // reproduce natively.
 
+// permPickLimit: up to this size a permutation is a sequence of picks (n! paths,
+// every element concrete); above it the permutation is symbolic: n unknowns in
+// [0,n), pairwise distinct, so only the elements the program really looks at
+// are ever concretised (e.g. the first k of rand.Perm(n)[:k]).
+const permPickLimit = 8
+
+func (m *Machine) symbolicPerm(n int) Value {
+	if n > 255 {
+		m.unsupported("rand.Perm(%d): symbolic permutations are limited to 255 elements", n)
+	}
+	p := make([]Value, n)
+	ts := make([]*Term, n)
+	lim := m.tf.BV(uint64(n), 8)
+	for i := 0; i < n; i++ {
+		b := m.fresh("rand.Perm."+itoa(i), "byte", 8, false)
+		m.assume(m.tf.Cmp("bvult", b, lim))
+		for j := 0; j < i; j++ {
+			m.assume(m.tf.Not(m.tf.Eq(ts[j], b)))
+		}
+		ts[i] = b
+		p[i] = lowerTerm(m.tf.Extend(b, 64, false), true)
+	}
+	m.envPicks++ // the native generator cannot be forced to this permutation
+	return Slice{a: p}
+}
+
 func init() {
 	regIfAbsent("math/rand.Perm", func(m *Machine, fr *frame, a []Value) Value {
 		n := int(int64(m.concretizeInt(a[0], "rand.Perm n")))
 		if n < 0 {
 			m.throwRuntime("invalid argument to rand.Perm")
+		}
+		if n > permPickLimit {
+			return m.symbolicPerm(n)
 		}
 		p := make([]Value, n)
 		for i := 0; i < n; i++ {
